@@ -215,6 +215,21 @@ func c13Once(c *mon.Ctx) {
 			unknown = append(unknown, s)
 		}
 	}
+	// JSON values that are not strings are not sources
+	for _, v := range []string{`5`, `0`, `true`, `false`, `[]`, `["RFC5280"]`, `{}`, `{"source":"RFC5280"}`, `3.5`, `[1]`} {
+		for _, prior := range []lint.LintSource{"", lint.RFC5280} {
+			back := prior
+			c.R.Count("evaluations", 1)
+			if err := json.Unmarshal([]byte(v), &back); err == nil {
+				c.V("unknown-source-accepted|json-non-string", fmt.Sprintf("decoding the JSON value %s into a LintSource holding %q succeeds (gives %q)", v, prior, back), "", nil, nil)
+			}
+		}
+		var m lint.LintMetadata
+		if err := json.Unmarshal([]byte(`{"name":"e_x","source":`+v+`}`), &m); err == nil {
+			c.V("unknown-source-accepted|json-non-string", fmt.Sprintf("decoding lint metadata whose source is the JSON value %s succeeds (source %q)", v, m.Source), "", nil, nil)
+		}
+		c.R.Distinct("unknown_strings", "json:"+v)
+	}
 	for k, u := range unknown {
 		var sl lint.SourceList
 		c.R.Count("evaluations", 1)
@@ -224,6 +239,22 @@ func c13Once(c *mon.Ctx) {
 		isKnownAfterTrim := all[trim]
 		if errLib == nil && !isKnownAfterTrim && trim != "" {
 			c.V("unknown-source-accepted|lib", fmt.Sprintf("SourceList.FromString(%q) accepted an unknown source (got %v)", u, sl), "", nil, nil)
+		}
+		if !isKnownAfterTrim {
+			// the single-source parser and the JSON decoder: an unknown string must not be taken for a source, also
+			// when the target already HOLDS a known source (a stale value is a silent acceptance)
+			for _, prior := range []lint.LintSource{"", lint.RFC5280, lint.CABFBaselineRequirements} {
+				ls := prior
+				ls.FromString(u)
+				if all[string(ls)] && ls != lint.UnknownLintSource {
+					c.V("unknown-source-accepted|fromstring", fmt.Sprintf("LintSource.FromString(%q) on a variable holding %q leaves / yields the known source %q", u, prior, ls), "", nil, nil)
+				}
+				back := prior
+				q, _ := json.Marshal(u)
+				if err := json.Unmarshal(q, &back); err == nil && trim != "" {
+					c.V("unknown-source-accepted|json", fmt.Sprintf("decoding the JSON string %s into a LintSource holding %q succeeds (gives %q)", q, prior, back), "", nil, nil)
+				}
+			}
 		}
 		if k%3 == 0 || c.Thorough() {
 			_, _, code := cliListNames("-includeSources", u)
